@@ -6,6 +6,7 @@ fn twin_max_frame_length() {
     let chunk_size: u32 = kani::any();
     kani::assume(chunk_size <= u32::MAX - 16); // the documented panic condition is excluded (checked by Cfg::check)
     let cfg = Cfg { chunk_size, ..Default::default() };
-    // room for the largest fixed-size message plus one chunk
-    assert!(cfg.max_frame_length() as u64 == 16 + chunk_size as u64);
+    // room for the largest fixed-size message plus one chunk, and never less than the hello message (26 bytes)
+    let want = if 16 + chunk_size as u64 >= 26 { 16 + chunk_size as u64 } else { 26 };
+    assert!(cfg.max_frame_length() as u64 == want);
 }
